@@ -33,7 +33,7 @@ from mitmproxy import dns, flow, http, tcp, udp, websocket
 from mitmproxy.test import tflow, tutils
 from wsproto.frame_protocol import Opcode
 
-from vmc import explore
+from vmc import explore, par
 from vmc.tally import HarnessError, Tally
 
 META = {
@@ -642,7 +642,6 @@ class Spec:
 
 
 def run(ctx):
-    global _SIDE
     full_depth = ctx.pick(3, 4)
     core_depth = ctx.pick(4, 5)
     ctx.bounds = {
@@ -652,23 +651,35 @@ def run(ctx):
         "core_alphabet": {"bfs_depth": core_depth, "flow_kinds": KINDS_CORE,
                           "edits": {k: {e[0]: e[2] for e in alphabet(k, "core")} for k in KINDS_CORE}},
     }
-    total = 0
-    for which, depth, kinds in (("full", full_depth, KINDS_FULL), ("core", core_depth, KINDS_CORE)):
-        for kind in kinds:
-            _SIDE = Tally()
-            spec = Spec(kind, which, depth)
-            states, capped = explore.bfs(spec, depth, ctx.tally, log=None)
-            if _SIDE.evaluations:
-                raise HarnessError("state clauses left unflushed")
-            total += states
-            ctx.log("%s alphabet (%2d ops) %-9s depth %d: %6d states, transitions so far %d" % (
-                which, len(spec._acts(spec.build().f)), kind, depth, states, ctx.tally.transitions))
-            if capped:
-                ctx.cap("state cap hit for %s" % kind)
+    # one BFS per (alphabet, flow kind).  The BFSs are independent, so they are dealt to the worker
+    # pool whole (one fork per BFS, explorer single-process inside the worker) instead of forking a
+    # pool per BFS level: the levels are small and a fork costs more than it saves here.
+    tasks = [(which, kind, depth)
+             for which, depth, kinds in (("core", core_depth, KINDS_CORE), ("full", full_depth, KINDS_FULL))
+             for kind in kinds]
+    for r in par.pmap(bfs_tasks, tasks, nchunks=len(tasks)):
+        for (which, kind, depth, nops, states, trans), t in r:
+            ctx.tally.merge(t)
+            ctx.log("%s alphabet (%2d ops) %-9s depth %d: %6d states %7d transitions" % (which, nops, kind, depth, states, trans))
+    total = ctx.tally.states
     evals = ctx.tally.extra.get("state_evaluations", 0)
     ctx.log("total states %d, state evaluations %d, distinct outcomes %d" % (total, evals, len(ctx.tally.outcomes)))
     if evals != total:
         raise HarnessError("every distinct state must be evaluated exactly once: %d states, %d evaluations" % (total, evals))
+
+
+def bfs_tasks(chunk):
+    global _SIDE
+    out = []
+    for which, kind, depth in chunk:
+        _SIDE = Tally()
+        t = Tally()
+        spec = Spec(kind, which, depth)
+        states, capped = explore.bfs(spec, depth, t, log=None, nproc=1)
+        if _SIDE.evaluations or capped:
+            raise HarnessError("state clauses left unflushed / unexpected cap")
+        out.append(((which, kind, depth, len(spec._acts(spec.build().f)), states, t.transitions), t))
+    return out
 
 
 def replay(case, t: Tally, verbose=False):
